@@ -947,6 +947,14 @@ class C18(PropBase):
                     xs.append(e[:rng.randrange(len(e))])
                 else:
                     xs.append("".join(rng.choice(alphabet + "=") for _ in range(rng.choice([1, 2, 3, 4, 5, 8, 12]))))
+            # payloads around the edges of UTF-8: every length, shortest-form / surrogate / range violations, truncation
+            for raw in ["é€\U0001F600a".encode(), "\u07ff\u0800\ud7ff\ue000\uffff\U00010000\U0010ffff".encode(), b"\x7f\xc2\x80\xdf\xbf",
+                        b"\xc0\x80", b"\xc1\xbf", b"\xe0\x9f\xbf", b"\xe0\xa0\x80", b"\xed\x9f\xbf", b"\xed\xa0\x80", b"\xed\xbf\xbf",
+                        b"\xee\x80\x80", b"\xf0\x8f\xbf\xbf", b"\xf0\x90\x80\x80", b"\xf4\x8f\xbf\xbf", b"\xf4\x90\x80\x80", b"\xf5\x80\x80\x80",
+                        b"\x80", b"\xbf", b"\xc3", b"\xe2\x82", b"\xf0\x9f\x98", b"\xc3\x28", b"\xe2\x28\xa1", b"\xf0\x28\x8c\xbc", b"a\xffb",
+                        bytes(rng.randrange(128, 256) for _ in range(rng.choice([1, 2, 3, 4])))]:
+                if rng.random() < 0.35:
+                    xs.append(base64.b64encode(raw).decode())
             out.append({"op": "b64", "kind": "b64-contract", "xs": xs, "hs": hs})
         return out
 
@@ -1024,6 +1032,13 @@ class C18(PropBase):
                     raw, canon = None, False
                 if canon != (d is not None) or (canon and d["hex"] != raw.hex()):
                     return {"sig": "b64-decode", "what": "base64 decoding of %r: %r" % (x, d)}
+                if canon:
+                    try:
+                        txt = raw.decode("utf-8")
+                    except UnicodeDecodeError:
+                        txt = None
+                    if d.get("utf8") != txt:
+                        return {"sig": "utf8-decode", "what": "UTF-8 decoding of %s: %r" % (raw.hex(), d.get("utf8"))}
             for h, e in zip(case["hs"], impl.get("enc", [])):
                 if base64.b64encode(bytes.fromhex(h)).decode() != e:
                     return {"sig": "b64-encode", "what": "base64 encoding of %s: %r" % (h, e)}
